@@ -210,6 +210,10 @@ func matrixRequests() []Req {
 	add(o("body", "application/json", `{"name":"ab"`, "truncated optional body"))
 	add(o("body", "application/json", `{"name":"ab","count":77}`, "maximum violated, optional body"))
 	add(o("unclassified", "application/json", "", "content type but empty optional body"))
+	add(o("body", "", validItem, "optional body present without a content type"))
+	add(o("body", "", `{"name":"ab"`, "truncated optional body without a content type"))
+	add(o("body", "", "garbage", "garbage optional body without a content type"))
+	add(o("unclassified", "text/plain", "", "wrong content type with an empty optional body"))
 	// getPlain
 	add(Req{Cls: "valid", BodyKind: "none", Method: "GET", Path: "/plain", Header: hdr(), Note: "no stages"})
 	add(Req{Cls: "wrong_method", BodyKind: "none", Method: "POST", Path: "/plain", Header: hdr(), Note: "undefined method"})
@@ -218,10 +222,15 @@ func matrixRequests() []Req {
 	add(Req{Cls: "unknown_path", BodyKind: "none", Method: "GET", Path: "", Header: hdr(), Note: "empty path"})
 	add(Req{Cls: "unclassified", BodyKind: "none", Method: "GET", Path: "/plain", RawPath: "/pl%zzain", Header: hdr(), Note: "invalid RawPath"})
 	add(Req{Cls: "unclassified", BodyKind: "none", Method: "GET", Path: "/plain", RawPath: "/%70lain", Header: hdr(), Note: "needless escape"})
+	// malformed escapes after an escape that forces the rewriting path of the normaliser
+	for _, rp := range []string{"/plain%41%4", "/pl%61in%", "/%70lain%zz", "/pla%69n%a", "/plain%2f%F", "/%50%", "/plain%7e%7", "/plain%2F%4"} {
+		add(Req{Cls: "unclassified", BodyKind: "none", Method: "GET", Path: "/plain", RawPath: rp, Header: hdr(), Note: "malformed escape after a rewritable one"})
+	}
+	add(Req{Cls: "unclassified", Sec: true, Params: true, BodyKind: "none", Method: "GET", Path: "/items/5", RawPath: "/items/%35%2", RawQuery: "q=ab", Header: hdr("X-Key", "k"), Note: "malformed escape in a parameter"})
 	return out
 }
 
-var junkBytes = []string{"/", "%", "%2", "%zz", "%2F", "{", "}", "?", "#", "..", "\x00", "\xff", " ", "items", "opt", "plain", "5", "-1", "a", "é", "\"", "\\", "&", "=", ";", ","}
+var junkBytes = []string{"/", "%", "%2", "%zz", "%2F", "%2f", "%41", "%6f", "%a", "{", "}", "?", "#", "..", "\x00", "\xff", " ", "items", "opt", "plain", "5", "-1", "a", "é", "\"", "\\", "&", "=", ";", ","}
 var junkMethods = []string{"GET", "POST", "PUT", "DELETE", "PATCH", "HEAD", "OPTIONS", "TRACE", "", "get", "G\x00T"}
 var junkCT = []string{"", "application/json", "text/plain", "application/x-www-form-urlencoded", "multipart/form-data; boundary=x", "multipart/form-data", "application/octet-stream", ";;", "application/json; charset", "*/*", "a/b/c"}
 
